@@ -48,6 +48,8 @@ pub struct NodeCfg {
     /// a node that never gets a Raft leader (node id 2, no auto-init, dead join address): it cannot look a
     /// token up anywhere but in its own cache
     pub leaderless: bool,
+    /// snapshot threshold (RNACOS_RAFT_SNAPSHOT_LOG_SIZE); None = the server's default
+    pub snapshot_log_size: Option<u32>,
 }
 
 pub struct Node {
@@ -129,11 +131,18 @@ impl Node {
             return Err(format!("{} is not built", bin));
         }
         let ports = free_ports(3)?;
-        let (http, grpc, console) = (ports[0], ports[1], ports[2]);
         let dir = work.join(name);
         std::fs::remove_dir_all(&dir).ok();
         std::fs::create_dir_all(dir.join("data")).map_err(|e| format!("mkdir {}: {}", dir.display(), e))?;
-        let log = std::fs::File::create(dir.join("server.log")).map_err(|e| e.to_string())?;
+        Self::spawn_at(&dir, (ports[0], ports[1], ports[2]), cfg)
+    }
+
+    /// start the server on an existing directory and fixed ports (restart of a node keeps both)
+    fn spawn_at(dir: &Path, ports: (u16, u16, u16), cfg: &NodeCfg) -> Result<Node, String> {
+        let bin = server_bin();
+        let dir = dir.to_path_buf();
+        let (http, grpc, console) = ports;
+        let log = std::fs::OpenOptions::new().create(true).append(true).open(dir.join("server.log")).map_err(|e| e.to_string())?;
         let log2 = log.try_clone().map_err(|e| e.to_string())?;
         let mut cmd = Command::new(&bin);
         cmd.current_dir(&dir) // no stray .env is picked up by dotenv
@@ -159,6 +168,7 @@ impl Node {
             .env("RNACOS_INIT_ADMIN_USERNAME", ADMIN_USER)
             .env("RNACOS_INIT_ADMIN_PASSWORD", admin_pass())
             .env("RUST_LOG", "warn")
+            .envs(cfg.snapshot_log_size.map(|n| ("RNACOS_RAFT_SNAPSHOT_LOG_SIZE".to_string(), n.to_string())))
             .stdin(Stdio::null())
             .stdout(Stdio::from(log))
             .stderr(Stdio::from(log2));
@@ -224,6 +234,31 @@ impl Node {
             }
             std::thread::sleep(Duration::from_millis(150));
         }
+    }
+
+    /// kill -9 the server process (the data directory stays)
+    pub fn kill(&mut self) {
+        if let Some(mut c) = self.child.take() {
+            let pid = c.id() as i32;
+            let _ = c.kill();
+            let _ = c.wait();
+            if let Ok(mut v) = CHILD_PIDS.lock() {
+                v.retain(|p| *p != pid);
+            }
+        }
+    }
+
+    /// start the server again on the same data directory and ports; returns when an admin login works again
+    pub fn restart(&mut self) -> Result<(), String> {
+        self.kill();
+        // the log of the previous run must not make wait_ready see an old panic line
+        let _ = std::fs::rename(self.dir.join("server.log"), self.dir.join(format!("server-{}.log", std::process::id())));
+        let n = Self::spawn_at(&self.dir, (self.http, self.grpc, self.console), &self.cfg)?;
+        let mut n = n.wait_ready()?;
+        self.child = n.child.take();
+        // `n` is dropped without a child: its Drop must not remove the shared directory
+        std::mem::forget(n);
+        Ok(())
     }
 
     pub fn log_tail(&self) -> String {
